@@ -70,6 +70,7 @@ Import Coq.Strings.String.StringSyntax.
 From GoCar Require Import Monitor GeneratedLockFacts.
 Local Open Scope string_scope.
 Eval vm_compute in (flat_map (fun I => map (fun v => (i_name I, fst v, snd v)) (violations I)) facts).
+Eval vm_compute in (flat_map (fun I => map (fun v => (String.append "atomicity:" (i_name I), fst v, snd v)) (atomicity_violations I)) facts).
 COQ
 ( cd "$S" && timeout 300 coqc $Q Diag.v ) > "$D/diag.log" 2>&1 || true
 ok=1
@@ -97,10 +98,15 @@ if not found:
 if len(found) > 6:
     print(f"lockfacts: {len(found)} paths break the discipline; the first 6 are reported")
 for inst, name, k in found[:6]:
+    atom = inst.startswith('atomicity:')
+    if atom: inst = inst[len('atomicity:'):]
     ps = text.get((inst, name)) or []
     k = int(k)
     desc = ps[0] if len(ps) == 1 else (ps[k] if k < len(ps) else '?')
-    print(f"OBLIGATION-FAIL lock discipline broken in {inst}: {name} path {k}: {desc[:600]}")
+    if atom:
+        print(f"OBLIGATION-FAIL {inst}.{name} path {k} is more than one critical section (each section is atomic, the call is not): {desc[:600]}")
+    else:
+        print(f"OBLIGATION-FAIL lock discipline broken in {inst}: {name} path {k}: {desc[:600]}")
 PY
 tail -5 "$D/coq-facts.log" | tr '\n' ' ' | cut -c1-600; echo
 echo "OBLIGATIONS 1 0"
